@@ -108,7 +108,11 @@ func SigIDs(mask uint32) []uint {
 }
 
 // EncodeMSM returns the payload (message body without leader and CRC).
-func EncodeMSM(m *MSM) []byte {
+func EncodeMSM(m *MSM) []byte { return EncodeMSMAs(m, IsMSM7(m.Type)) }
+
+// EncodeMSMAs encodes with an explicit choice of the MSM7 or MSM4 layout, so that a
+// body of either layout can be given any number in its type field.
+func EncodeMSMAs(m *MSM, msm7 bool) []byte {
 	var w BitWriter
 	w.Put(uint64(m.Type), 12)
 	w.Put(uint64(m.StationID), 12)
@@ -125,7 +129,6 @@ func EncodeMSM(m *MSM) []byte {
 	for _, c := range m.CellMask {
 		w.PutBool(c)
 	}
-	msm7 := IsMSM7(m.Type)
 	// satellite data, field major
 	for _, s := range m.Sats {
 		w.Put(uint64(s.Whole), 8)
